@@ -393,6 +393,7 @@ def install_spec_builtins(ip):
 
     B["resolve_class"] = Builtin("resolve_class", lambda ip, a, k: ip.resolve_class(a[0]))
     B["resolve_module"] = Builtin("resolve_module", lambda ip, a, k: ip.src.load_path(a[0]))
+    B["module_global"] = Builtin("module_global", lambda ip, a, k: ip.module_global(ip.src.load_path(a[0]), a[1]))
 
     from .values import Event
 
